@@ -576,14 +576,12 @@ def post_batch(tier, base_seed, results):
     """Thorough tier: (a) re-execute a sample of batches in a fresh interpreter under another PYTHONHASHSEED -
     event logs (which hash every output) must be identical; (b) real-process fidelity probe: the three
     behaviours the multiprocessing stub assumes are confirmed against real `multiprocessing`."""
-    if tier != "thorough":
-        return {"evidence": {"hashseed_reexecution": "thorough tier only", "real_process_fidelity_probe": "thorough tier only"}}
     import subprocess
     import sys
     from .core import VERIF_DIR, RunContext, Tape, EventLog, Counters
     out = {"evidence": {}, "violations": []}
     # (a) hash seed
-    n = min(24, len(results))
+    n = min(24 if tier == "thorough" else 12, len(results))
     env = dict(os.environ, VERIF_HASHSEED="4242", VERIF_SEED=str(base_seed), VERIF_TIER=tier)
     env.pop("PYTHONHASHSEED", None)
     p = subprocess.run([os.path.join(VERIF_DIR, "check"), ID, "--tier", tier, "--runs", str(n), "--print-shas", "--no-evidence"],
@@ -602,6 +600,9 @@ def post_batch(tier, base_seed, results):
         out["violations"].append({"class": "hashseed_dependence", "message": "batches %r give different outputs / event logs under PYTHONHASHSEED=4242" % diff[:8],
                                   "detail": {"indices": diff}, "rerun": "VERIF_HASHSEED=4242 ./check C08 --tier thorough --runs %d --print-shas" % n})
     # (b) real processes
+    if tier != "thorough":
+        out["evidence"]["real_process_fidelity_probe"] = "thorough tier only"
+        return out
     out["evidence"]["real_process_fidelity_probe"] = fidelity_probe()
     bad = [k for k, v in out["evidence"]["real_process_fidelity_probe"].items() if isinstance(v, dict) and v.get("ok") is False]
     if bad:
